@@ -10,7 +10,13 @@ BASE=HEAD; [ -f $OUT/base_commit ] && BASE=$(cat $OUT/base_commit)
 git -C /repo worktree add -q --detach $EV $BASE || exit 2
 ( cd $EV && git apply $OUT/patch.diff ) || { echo "patch does not apply"; git -C /repo worktree remove --force $EV; exit 2; }
 cd /verif
-VERIF_REPO=$EV ./check.sh $CHK $TIER > $OUT/check-$CHK-$TIER.log 2>&1; RC=$?
+# JUDGE=<frozen zncheck binary> avoids rebuilding the judge (use it in long loops, so that edits
+# to cmd/zncheck made meanwhile do not change or break the run)
+if [ -n "${JUDGE:-}" ]; then
+  GOFLAGS=-mod=mod GOPROXY=off GOSUMDB=off GOTOOLCHAIN=local VERIF_REPO=$EV $JUDGE $CHK $TIER > $OUT/check-$CHK-$TIER.log 2>&1; RC=$?
+else
+  VERIF_REPO=$EV ./check.sh $CHK $TIER > $OUT/check-$CHK-$TIER.log 2>&1; RC=$?
+fi
 RES=MISSED; [ $RC -eq 1 ] && grep -q "^VIOLATION property=$CHK" $OUT/check-$CHK-$TIER.log && RES=DETECTED
 [ $RC -eq 2 ] && RES=INCONCLUSIVE
 echo "$ID by $CHK $TIER: $RES (exit $RC, $(grep -c '^VIOLATION' $OUT/check-$CHK-$TIER.log) violation lines) $(grep "^$CHK $TIER" $OUT/check-$CHK-$TIER.log | tail -1)"
